@@ -40,15 +40,23 @@ EXPLANATION = (
     "by base32.a2b (could_be_base32_encoded) indexes with (length mod 8, last byte) - folded through init_s8 / "
     "add_check_array - is true for the last character of every base32 group of every STRING_RE at the group's length(s), "
     "so that no string the patterns accept, in particular none that to_string() writes, fails a2b's precondition (an "
-    "AssertionError, which from_string does not turn into UnknownURI). "
+    "AssertionError, which from_string does not turn into UnknownURI); (15) abstract execution of the textual predicates "
+    "has_uri_prefix / is_literal_file_uri on the same known leading bytes: certainly true for [one alleged prefix +] "
+    "BASE_STRING.. (the literal file cap's only, for is_literal_file_uri), certainly false for two stacked alleged prefixes "
+    "and for white space before the BASE_STRING - they recognise what from_string's front end reads, nothing more. "
+    "The abstract executions of 9-12 and 15 follow calls of module-level package helpers (the str/bytes step or the prefix "
+    "handling factored out, to depth 3, arguments bound to the abstract values, the result taken when the helper's return "
+    "is certain or all its possible returns agree), tuple results / tuple unpacking / indexing of a result tuple, and "
+    "concatenation of constants. "
     "Undecided: base32 a2b/b2a arithmetic itself (value level), int() of huge digit strings, the free-form MDMF "
     "extension fields (explicitly allowed to be dropped); which kinds from_string refuses behind a 'ro.'/'imm.' prefix or "
     "with deep_immutable=True (flag clearing, the error/kind reported for a constraint failure - property C16), str inputs "
     "(the encode step) and non-bytes arguments; that _SHA256d_Hasher really truncates to truncate_to (value level); "
     "paths of the abstract executions whose tests are not decided by the scenario are followed on both sides and "
     "only certain outcomes are reported; rules 11/12 give ANALYSIS-ERROR when a scenario's outcome is not decided by "
-    "the known leading bytes (prefix handling moved into helpers, while/nested loops over a prefix table, regex-based prefix "
-    "tests, split/partition/replace), and they examine the listed scenarios only (other junk than white space, other "
+    "the known leading bytes (prefix handling moved into methods / nested functions / helpers with *args or decorators or "
+    "deeper than 3 calls, a helper that may raise, while/nested loops over a prefix table, regex-based prefix "
+    "tests, split/partition/replace, `in` tests), and they examine the listed scenarios only (other junk than white space, other "
     "transformations than slices, the strip family and removeprefix/removesuffix are not modelled); the other "
     "conjunct of a2b's validator (the translate-based alphabet test) and the empty-string guard; a validator that does not "
     "index a table by (len % 8, last byte) gives ANALYSIS-ERROR in rule 14; entries of that table that are true for more "
@@ -424,6 +432,8 @@ def _truth(v):
         return v[1] > 0
     if v[0] == "h" and v[1]:
         return True
+    if v[0] == "t":
+        return len(v[1]) > 0
     return None
 
 
@@ -533,9 +543,69 @@ class _AI:
     """Bounded abstract interpreter over one function's CFG.  'exc' edges are not followed: the scenarios are
     well-formed values, and the outcomes of interest are returns, explicit raises, failed assertions and the end."""
 
-    def __init__(self, idx, F, fn, base=None):
+    MAX_DEPTH = 3
+
+    def __init__(self, idx, F, fn, base=None, depth=0, cache=None):
         self.idx, self.F, self.fn, self.base = idx, F, fn, base
         self.module = fn.module
+        self.depth = depth
+        self.cache = {} if cache is None else cache       # (helper qual, argument values) -> result value
+        self.helper_states = 0
+
+    def call_helper(self, e, env):
+        """Value of a call of a module-level package function (a helper the code under analysis was factored into),
+        by abstract execution of the helper on the argument values: decided when the helper certainly returns (every
+        test on the path decided) - or when all the returns it may reach give one and the same value.  None: not a
+        helper call this interpreter follows; UNK: followed, but the result is not decided (a possible raise included)."""
+        if self.depth >= self.MAX_DEPTH or not isinstance(e.func, (ast.Name, ast.Attribute)):
+            return None
+        if isinstance(e.func, ast.Name) and e.func.id in env:
+            return None
+        if isinstance(e.func, ast.Attribute) and (not attr_path(e.func) or attr_path(e.func).split(".")[0] in env):
+            return None
+        try:
+            tgt = self.idx.resolve_expr(self.module, e.func)
+        except Exception:
+            return None
+        if not isinstance(tgt, FuncInfo) or tgt.cls is not None or tgt.parent is not None or isinstance(tgt.node, ast.Lambda):
+            return None
+        a = tgt.node.args
+        if a.vararg or a.kwarg or a.posonlyargs or any(isinstance(x, ast.Starred) for x in e.args):
+            return UNK
+        if any(isinstance(x, (ast.Yield, ast.YieldFrom, ast.Await, ast.Global, ast.Nonlocal)) for x in ast.walk(tgt.node)) \
+                or tgt.node.decorator_list:
+            return UNK
+        names = [x.arg for x in a.args]
+        if len(e.args) > len(names):
+            return UNK
+        given = {}
+        for nm, x in zip(names, e.args):
+            given[nm] = self.ev(x, env)
+        for kw in e.keywords:
+            if kw.arg is None or kw.arg in given or kw.arg not in names + [x.arg for x in a.kwonlyargs]:
+                return UNK
+            given[kw.arg] = self.ev(kw.value, env)
+        key = (tgt.qual, self.base, tuple(sorted(given.items())))
+        if key in self.cache:
+            return self.cache[key]
+        self.cache[key] = UNK                                  # a recursive call is not followed
+        sub = _AI(self.idx, self.F, tgt, self.base, self.depth + 1, self.cache)
+        dflt = sub.defaults()
+        if any(dflt[nm] == UNK and nm not in given for nm in dflt):
+            return UNK                                         # a parameter without argument and default
+        outs, nstates = sub.run(given)
+        self.helper_states += nstates + sub.helper_states
+        vals = set()
+        for (n, kind, env2, exact, _w) in outs:
+            if kind == "return":
+                vals.add(("c", None) if n.ast.value is None else sub.ev(n.ast.value, env2))
+            elif kind == "end":
+                vals.add(("c", None))
+            else:
+                vals.add(UNK)
+        res = next(iter(vals)) if len(vals) == 1 else UNK
+        self.cache[key] = res
+        return res
 
     def ev(self, e, env):
         F, base = self.F, self.base
@@ -586,8 +656,26 @@ class _AI:
                         if not isinstance(y[1], bytes) or not y[1].startswith(x[1]):
                             return ("c", isinstance(op, ast.NotEq))
             return UNK
+        elif isinstance(e, ast.BinOp) and isinstance(e.op, ast.Add) and any(
+                isinstance(x, ast.Name) and x.id in env for x in ast.walk(e)):
+            a, b = self.ev(e.left, env), self.ev(e.right, env)       # a loop variable + a literal, ...
+            if a[0] == "c" and b[0] == "c" and type(a[1]) is type(b[1]) and isinstance(a[1], (bytes, str, tuple)):
+                return _const(a[1] + b[1])
+            return UNK
+        elif isinstance(e, ast.Tuple) and isinstance(e.ctx, ast.Load) and not any(isinstance(x, ast.Starred) for x in e.elts):
+            vs = tuple(self.ev(x, env) for x in e.elts)
+            if all(x[0] == "c" for x in vs):
+                return _const(tuple(x[1] for x in vs))
+            return ("t", vs)
         elif isinstance(e, ast.Subscript):
             v = self.ev(e.value, env)
+            if v[0] == "t" or (v[0] == "c" and isinstance(v[1], tuple)):
+                if isinstance(e.slice, ast.Slice):
+                    return UNK
+                i = self.ev(e.slice, env)
+                if i[0] == "c" and type(i[1]) is int and -len(v[1]) <= i[1] < len(v[1]):
+                    return v[1][i[1]] if v[0] == "t" else _const(v[1][i[1]])
+                return UNK
             if v in (IN, CUT):
                 sl = e.slice
                 if isinstance(sl, ast.Slice) and sl.upper is None and sl.step is None and (
@@ -683,7 +771,12 @@ class _AI:
             n = _hash_len(self.idx, F, self.module, e)
             if n is not None:
                 return ("b", n, "hash")
-            return UNK
+            hv = self.call_helper(e, env)
+            return UNK if hv is None else hv
+        elif isinstance(e, ast.Call):
+            hv = self.call_helper(e, env)
+            if hv is not None:
+                return hv
         if any(isinstance(x, ast.Name) and x.id in env for x in ast.walk(e)):
             return UNK
         try:
@@ -758,7 +851,17 @@ class _AI:
             if n.kind == "stmt" and isinstance(n.ast, ast.Assign):
                 v = self.ev(n.ast.value, env)
                 for t in n.ast.targets:
-                    if isinstance(t, ast.Name):
+                    parts = None
+                    if isinstance(t, (ast.Tuple, ast.List)) and all(
+                            isinstance(x, ast.Name) or (isinstance(x, ast.Attribute) and attr_path(x)) for x in t.elts):
+                        if v[0] == "t" and len(v[1]) == len(t.elts):
+                            parts = list(v[1])
+                        elif v[0] == "c" and isinstance(v[1], tuple) and len(v[1]) == len(t.elts):
+                            parts = [_const(x) for x in v[1]]
+                    if parts is not None:                # a, b = X, Y / a, b = helper(..): element by element
+                        for x, pv in zip(t.elts, parts):
+                            env[x.id if isinstance(x, ast.Name) else attr_path(x)] = pv
+                    elif isinstance(t, ast.Name):
                         env[t.id] = v
                     elif isinstance(t, ast.Attribute) and attr_path(t):
                         env[attr_path(t)] = v
@@ -841,6 +944,7 @@ def _scenario_run(idx, F, fn, head, extra=None):
     given = {ps[0]: ("h", head, 0, True)}
     given.update(extra or {})
     outs, nstates = ai.run(given)
+    nstates += ai.helper_states
     out = []
     for (n, kind, env, exact, w) in outs:
         what, argv = (kind,), UNK
@@ -1773,3 +1877,58 @@ def run(ctx: Context):
                         r.violation(helper, helper.loc(), msg)
                     else:
                         r.violation(V, V.loc(), msg)
+
+    # -- 15. the textual predicates recognise exactly one optional alleged prefix, like from_string ----
+    with ctx.rule("C15.15", "R3", "the textual predicates of allmydata.uri agree with the grammar from_string reads, decided "
+                  "on the known leading bytes of a bytes argument, per cap class: has_uri_prefix is certainly true for "
+                  "BASE_STRING.. and for one alleged prefix + BASE_STRING.., is_literal_file_uri likewise for the literal "
+                  "file cap's BASE_STRING only, and both are certainly false for two stacked alleged prefixes (every ordered "
+                  "pair) and for white space in front of the BASE_STRING or between prefix and BASE_STRING - strings "
+                  "from_string reports as unknown (abstract execution of the predicate, helpers followed)", expected=2) as r:
+        lit_base = _fold_bytes(F, idx.cls("uri:LiteralFileURI"), "BASE_STRING")
+        preds = [(idx.func("uri:has_uri_prefix"), None), (idx.func("uri:is_literal_file_uri"), lit_base)]
+        for (pf, only) in preds:
+            r.site(pf)
+            pps = first_positional_params(pf)
+            if not pps:
+                raise AnchorVanished("%s has no positional parameter" % pf.qual)
+            heads = {}
+            for q, k in sorted(all_classes.items()):
+                base = _fold_bytes(F, k, "BASE_STRING")
+                inside = only is None or base == only
+                heads.setdefault(base, inside)
+                for (_n1, p1) in prefixes:
+                    heads.setdefault(p1 + base, inside)
+                    for (_n2, p2) in prefixes:
+                        heads.setdefault(p1 + p2 + base, False)
+                    for j in (b" ", b"\n"):
+                        heads.setdefault(p1 + j + base, False)
+                for j in (b" ", b"\n"):
+                    heads.setdefault(j + base, False)
+            bad, undecided = [], []
+            for head, want in sorted(heads.items()):
+                ai = _AI(idx, F, pf, None)
+                outs, nstates = ai.run({pps[0]: ("h", head, 0, True)})
+                r.count(nstates + ai.helper_states)
+                got = None
+                if len(outs) == 1 and outs[0][3] and outs[0][1] in ("return", "end"):
+                    (n, kind, env, _x, w) = outs[0]
+                    v = ("c", None) if kind == "end" or n.ast.value is None else ai.ev(n.ast.value, env)
+                    got = _truth(v)
+                if got is None:
+                    undecided.append(head)
+                elif got != want:
+                    bad.append((head, want, outs[0]))
+            if bad:
+                (head, want, o) = bad[0]
+                more = sorted({show(h) for (h, _w, _o) in bad[1:]})
+                r.violation(pf, pf.loc(o[0].ast) if o[0].ast is not None else pf.loc(),
+                            "%s(%s) is %s: %s%s" % (
+                                pf.name, show(head), not want,
+                                ("a string with more or other leading bytes than one alleged prefix is outside the cap grammar "
+                                 "(from_string reports it as unknown) but is recognised here") if not want else
+                                "a string the cap grammar admits is not recognised",
+                                ("; likewise %s" % ", ".join(more[:6])) if more else ""), o[4])
+            elif undecided:
+                raise AnalysisError("the result of %s is not decided by the leading bytes in %d scenario(s), e.g. %s(%s)" % (
+                    pf.qual, len(undecided), pf.name, show(undecided[0])))
